@@ -1,0 +1,18 @@
+//go:build verif
+
+// Verification hook (add-only, build tag verif): the ensemble / removed-nodes update that
+// shardController.swapNode performs under shardMetadataMutex, callable on plain lists.
+package controllers
+
+import "github.com/oxia-db/oxia/coordinator/model"
+
+// VerifSwapNodeLists runs swapNode's metadata step (swapNodeInMetadata) on copies of the given lists and
+// returns the resulting ensemble and removed-nodes lists; err != nil means the swap was refused.
+func VerifSwapNodeLists(ensemble, removed []model.Server, from, to model.Server) ([]model.Server, []model.Server, error) {
+	md := model.ShardMetadata{
+		Ensemble:     append([]model.Server(nil), ensemble...),
+		RemovedNodes: append([]model.Server(nil), removed...),
+	}
+	err := swapNodeInMetadata(&md, from, to)
+	return md.Ensemble, md.RemovedNodes, err
+}
